@@ -187,11 +187,15 @@ func computeShape(p *load.Program, et *ErrType) *TypeShape {
 			}
 		}
 	}
+	// the library's own UnwrapOnce prefers Cause(): that field is "the cause";
+	// a disagreeing Unwrap() is recorded for R-WRAP-DUAL only
 	switch {
 	case sh.HasCause && sh.HasUnwrap:
-		if cf != nil && cf == uf {
-			sh.CauseField = cf
-		} else if sh.CauseWhy == "" {
+		sh.CauseField = cf
+		if cf == nil {
+			sh.CauseField = uf
+		}
+		if (cf == nil || cf != uf) && sh.CauseWhy == "" {
 			sh.CauseWhy = "Cause() and Unwrap() do not return the same field"
 		}
 	case sh.HasCause:
